@@ -1,4 +1,926 @@
-//! c19 check (under construction)
+//! C19 - path combination tolerates arbitrary segment sets from the control plane.
+//!
+//! Fault enumeration by bounded exhaustive exploration: base = the lookup-plan segment sets of every
+//! (topology, src, dst) of R-topo with n <= N plus the curated shapes; on each base set EVERY single
+//! structural mutation (thorough: every ordered pair of mutations on the smaller bases) of the
+//! catalogue in `seg_mutations` / `set_mutants`; plus a scaling series 5/10/20/40 segments.
+//! The REAL `combine` is called on every mutated set. Oracles: no panic; returns within a fixed
+//! budget; result size polynomial; every returned path parses with R-wire, re-encodes identically,
+//! hop-field interface ids == metadata interface list, src/dst == first/last metadata AS, expiry ==
+//! earliest hop expiry, MTU <= every contributing value; ISOLATION: the paths obtainable from the
+//! untouched segments alone are all still returned.
+use std::{
+    collections::{BTreeMap, BTreeSet},
+    sync::{
+        Mutex,
+        atomic::{AtomicU64, Ordering},
+    },
+    time::{Duration, Instant},
+};
+
+use rayon::prelude::*;
+use sciparse::{
+    dataplane_path::standard::types::HopFieldMac,
+    identifier::isd_asn::IsdAsn,
+    path::combinator::combine,
+    segment::{AsEntry, HopEntry, PeerEntry, SegmentHopField, UnsignedPathSegment},
+};
+use vpc::{
+    Value, json,
+    refseg::{self, RSegment},
+    reftopo::{AsIdx, Topo},
+    reftopo_enum,
+    refwire::RStdPath,
+};
+
+use crate::util::{self, BASE_TS, Obs};
+
+/// Fixed budget for one call (the unmutated calls take well under a millisecond).
+const BUDGET: Duration = Duration::from_secs(20);
+
+// ---------------------------------------------------------------------------------------------
+// plain-data segments (mutable, JSON-serialisable)
+// ---------------------------------------------------------------------------------------------
+
+#[derive(Clone, Debug, PartialEq, Eq, PartialOrd, Ord, Hash)]
+pub struct MPeer {
+    pub peer: u64,
+    pub peer_if: u16,
+    pub peer_mtu: u16,
+    pub exp: u8,
+    pub cin: u16,
+    pub cout: u16,
+    pub mac: [u8; 6],
+}
+#[derive(Clone, Debug, PartialEq, Eq, PartialOrd, Ord, Hash)]
+pub struct MEntry {
+    pub ia: u64,
+    pub next: u64,
+    pub mtu: u32,
+    pub ingress_mtu: u16,
+    pub exp: u8,
+    pub cin: u16,
+    pub cout: u16,
+    pub mac: [u8; 6],
+    pub peers: Vec<MPeer>,
+}
+#[derive(Clone, Debug, PartialEq, Eq, PartialOrd, Ord, Hash)]
+pub struct MSeg {
+    /// stable identity inside a set (for isolation: which segments were touched)
+    pub id: u32,
+    pub ts: u32,
+    pub seg_id: u16,
+    pub entries: Vec<MEntry>,
+}
+#[derive(Clone, Debug, PartialEq, Eq, PartialOrd, Ord, Hash, Default)]
+pub struct MSet {
+    pub cores: Vec<MSeg>,
+    pub non_cores: Vec<MSeg>,
+}
+
+impl MSeg {
+    fn from_r(topo: &Topo, id: u32, s: &RSegment) -> MSeg {
+        MSeg {
+            id,
+            ts: s.timestamp,
+            seg_id: s.seg_id,
+            entries: s
+                .entries
+                .iter()
+                .map(|e| MEntry {
+                    ia: topo.ases[e.as_idx].ia(),
+                    next: e.next.map(|n| topo.ases[n].ia()).unwrap_or(0),
+                    mtu: e.as_mtu as u32,
+                    ingress_mtu: e.ingress_mtu,
+                    exp: e.exp_time,
+                    cin: e.cons_ingress,
+                    cout: e.cons_egress,
+                    mac: e.mac,
+                    peers: e.peers.iter().map(|p| MPeer { peer: topo.ases[p.peer_as].ia(), peer_if: p.peer_if, peer_mtu: p.link_mtu, exp: p.exp_time, cin: p.local_if, cout: p.cons_egress, mac: p.mac }).collect(),
+                })
+                .collect(),
+        }
+    }
+    fn to_crate(&self) -> UnsignedPathSegment {
+        let entries = self
+            .entries
+            .iter()
+            .map(|e| AsEntry {
+                local: IsdAsn::from_u64(e.ia),
+                next: IsdAsn::from_u64(e.next),
+                mtu: e.mtu,
+                hop_entry: HopEntry { ingress_mtu: e.ingress_mtu, hop_field: SegmentHopField { expiration_units: e.exp, cons_ingress: e.cin, cons_egress: e.cout, mac: HopFieldMac::new(e.mac) } },
+                peer_entries: e
+                    .peers
+                    .iter()
+                    .map(|p| PeerEntry { peer: IsdAsn::from_u64(p.peer), peer_interface: p.peer_if, peer_mtu: p.peer_mtu, hop_field: SegmentHopField { expiration_units: p.exp, cons_ingress: p.cin, cons_egress: p.cout, mac: HopFieldMac::new(p.mac) } })
+                    .collect(),
+                extensions: vec![],
+                unsigned_extensions: vec![],
+            })
+            .collect();
+        UnsignedPathSegment::new(self.ts, self.seg_id, entries)
+    }
+    fn to_json(&self) -> Value {
+        json!({"id": self.id, "ts": self.ts, "seg_id": self.seg_id, "entries": self.entries.iter().map(|e| json!({
+            "ia": e.ia, "ia_text": util::ia_str(e.ia), "next": e.next, "mtu": e.mtu, "ingress_mtu": e.ingress_mtu, "exp": e.exp, "cons_ingress": e.cin, "cons_egress": e.cout, "mac": vpc::hex(&e.mac),
+            "peers": e.peers.iter().map(|p| json!({"peer": p.peer, "peer_text": util::ia_str(p.peer), "peer_if": p.peer_if, "peer_mtu": p.peer_mtu, "exp": p.exp, "cons_ingress": p.cin, "cons_egress": p.cout, "mac": vpc::hex(&p.mac)})).collect::<Vec<_>>(),
+        })).collect::<Vec<_>>()})
+    }
+    fn from_json(v: &Value) -> MSeg {
+        let u = |x: &Value| x.as_u64().unwrap();
+        let mac = |x: &Value| -> [u8; 6] { vpc::unhex(x.as_str().unwrap()).try_into().unwrap() };
+        MSeg {
+            id: u(&v["id"]) as u32,
+            ts: u(&v["ts"]) as u32,
+            seg_id: u(&v["seg_id"]) as u16,
+            entries: v["entries"]
+                .as_array()
+                .unwrap()
+                .iter()
+                .map(|e| MEntry {
+                    ia: u(&e["ia"]),
+                    next: u(&e["next"]),
+                    mtu: u(&e["mtu"]) as u32,
+                    ingress_mtu: u(&e["ingress_mtu"]) as u16,
+                    exp: u(&e["exp"]) as u8,
+                    cin: u(&e["cons_ingress"]) as u16,
+                    cout: u(&e["cons_egress"]) as u16,
+                    mac: mac(&e["mac"]),
+                    peers: e["peers"].as_array().unwrap().iter().map(|p| MPeer { peer: u(&p["peer"]), peer_if: u(&p["peer_if"]) as u16, peer_mtu: u(&p["peer_mtu"]) as u16, exp: u(&p["exp"]) as u8, cin: u(&p["cons_ingress"]) as u16, cout: u(&p["cons_egress"]) as u16, mac: mac(&p["mac"]) }).collect(),
+                })
+                .collect(),
+        }
+    }
+    fn text(&self) -> String {
+        let mut s = format!("seg#{} ts={} [", self.id, self.ts);
+        for (i, e) in self.entries.iter().enumerate() {
+            if i > 0 {
+                s.push_str(" | ");
+            }
+            s.push_str(&format!("{}>{}>{} mtu={} imtu={} exp={}", e.cin, util::ia_str(e.ia), e.cout, e.mtu, e.ingress_mtu, e.exp));
+            for p in &e.peers {
+                s.push_str(&format!(" peer({}#{}<-{} mtu={})", util::ia_str(p.peer), p.peer_if, p.cin, p.peer_mtu));
+            }
+        }
+        s.push(']');
+        s
+    }
+}
+impl MSet {
+    fn to_json(&self) -> Value {
+        json!({"cores": self.cores.iter().map(|s| s.to_json()).collect::<Vec<_>>(), "non_cores": self.non_cores.iter().map(|s| s.to_json()).collect::<Vec<_>>()})
+    }
+    fn from_json(v: &Value) -> MSet {
+        MSet { cores: v["cores"].as_array().unwrap().iter().map(MSeg::from_json).collect(), non_cores: v["non_cores"].as_array().unwrap().iter().map(MSeg::from_json).collect() }
+    }
+    fn len(&self) -> usize {
+        self.cores.len() + self.non_cores.len()
+    }
+    fn without(&self, ids: &BTreeSet<u32>) -> MSet {
+        MSet { cores: self.cores.iter().filter(|s| !ids.contains(&s.id)).cloned().collect(), non_cores: self.non_cores.iter().filter(|s| !ids.contains(&s.id)).cloned().collect() }
+    }
+    fn next_id(&self) -> u32 {
+        self.cores.iter().chain(self.non_cores.iter()).map(|s| s.id).max().map_or(0, |m| m + 1)
+    }
+    fn hash(&self) -> u64 {
+        vpc::fnv64(format!("{self:?}").as_bytes())
+    }
+}
+
+// ---------------------------------------------------------------------------------------------
+// mutation catalogue
+// ---------------------------------------------------------------------------------------------
+
+/// One mutated set: what was done, the new set, and the ids of the touched / added segments.
+#[derive(Clone)]
+pub struct Mutant {
+    pub family: &'static str,
+    pub what: String,
+    pub set: MSet,
+    pub touched: BTreeSet<u32>,
+}
+
+struct Ctx {
+    /// every IA of the topology + one IA that exists nowhere
+    ias: Vec<u64>,
+    src: u64,
+    dst: u64,
+}
+
+/// Every single structural mutation of one segment: (family, description, mutated segment).
+fn seg_mutations(s: &MSeg, ctx: &Ctx) -> Vec<(&'static str, String, MSeg)> {
+    let mut out: Vec<(&'static str, String, MSeg)> = vec![];
+    let l = s.entries.len();
+    let mut push = |fam: &'static str, what: String, m: MSeg| {
+        if m != *s {
+            out.push((fam, what, m));
+        }
+    };
+    // whole segment
+    for keep in [0usize, 1] {
+        let mut m = s.clone();
+        m.entries.truncate(keep);
+        push("truncate", format!("truncate to the first {keep} entries"), m);
+    }
+    if l >= 1 {
+        let mut m = s.clone();
+        m.entries = vec![s.entries[l - 1].clone()];
+        push("truncate", "truncate to the last entry".into(), m);
+        let mut m = s.clone();
+        m.entries.reverse();
+        push("reorder", "reverse the entries".into(), m);
+        let mut m = s.clone();
+        for e in &mut m.entries {
+            e.cin = 0;
+            e.cout = 0;
+            for p in &mut e.peers {
+                p.cin = 0;
+                p.cout = 0;
+                p.peer_if = 0;
+            }
+        }
+        push("zero-if", "all interface ids of the segment := 0".into(), m);
+        let mut m = s.clone();
+        for e in &mut m.entries {
+            e.peers.clear();
+        }
+        push("peer-drop", "drop all peer entries of the segment".into(), m);
+    }
+    for i in 0..l {
+        let e = &s.entries[i];
+        let mut m = s.clone();
+        m.entries.remove(i);
+        push("delete", format!("delete entry {i}"), m);
+        let mut m = s.clone();
+        m.entries.insert(i, e.clone());
+        push("duplicate", format!("duplicate entry {i}"), m);
+        if i + 1 < l {
+            let mut m = s.clone();
+            m.entries.swap(i, i + 1);
+            push("reorder", format!("swap entries {i} and {}", i + 1), m);
+        }
+        // repeat an AS / foreign AS
+        for j in 0..l {
+            if j != i {
+                let mut m = s.clone();
+                m.entries[i].ia = s.entries[j].ia;
+                push("repeat-as", format!("entry {i}: AS := AS of entry {j}"), m);
+            }
+        }
+        for &x in &ctx.ias {
+            if x != e.ia && !s.entries.iter().any(|o| o.ia == x) {
+                let mut m = s.clone();
+                m.entries[i].ia = x;
+                push("foreign-as", format!("entry {i}: AS := {}", util::ia_str(x)), m);
+            }
+        }
+        // interface ids
+        let mut ids: BTreeSet<u16> = BTreeSet::new();
+        for o in &s.entries {
+            ids.insert(o.cin);
+            ids.insert(o.cout);
+            for p in &o.peers {
+                ids.insert(p.cin);
+                ids.insert(p.peer_if);
+            }
+        }
+        ids.insert(0);
+        ids.insert(65535);
+        for &v in &ids {
+            let mut m = s.clone();
+            m.entries[i].cin = v;
+            push(if v == 0 { "zero-if" } else { "alias-if" }, format!("entry {i}: cons_ingress := {v}"), m);
+            let mut m = s.clone();
+            m.entries[i].cout = v;
+            push(if v == 0 { "zero-if" } else { "alias-if" }, format!("entry {i}: cons_egress := {v}"), m);
+        }
+        let mut m = s.clone();
+        m.entries[i].cin = 0;
+        m.entries[i].cout = 0;
+        push("zero-if", format!("entry {i}: both interface ids := 0"), m);
+        let mut m = s.clone();
+        m.entries[i].cin = e.cout;
+        m.entries[i].cout = e.cin;
+        push("alias-if", format!("entry {i}: swap ingress and egress"), m);
+        // MTUs
+        for v in [0u32, 1, 65535, 65536, 65536 + 1500, u32::MAX] {
+            let mut m = s.clone();
+            m.entries[i].mtu = v;
+            push("mtu", format!("entry {i}: mtu := {v}"), m);
+        }
+        for v in [0u16, 1, 65535] {
+            let mut m = s.clone();
+            m.entries[i].ingress_mtu = v;
+            push("mtu", format!("entry {i}: ingress_mtu := {v}"), m);
+        }
+        for v in [0u8, 255] {
+            let mut m = s.clone();
+            m.entries[i].exp = v;
+            push("expiry", format!("entry {i}: exp_time := {v}"), m);
+        }
+        // peer entries
+        for (pi, p) in e.peers.iter().enumerate() {
+            let mut m = s.clone();
+            m.entries[i].peers.remove(pi);
+            push("peer-drop", format!("entry {i}: drop peer entry {pi}"), m);
+            let mut m = s.clone();
+            m.entries[i].peers.insert(pi, p.clone());
+            push("peer-crosswire", format!("entry {i}: duplicate peer entry {pi}"), m);
+            for &x in &ctx.ias {
+                if x != p.peer {
+                    let mut m = s.clone();
+                    m.entries[i].peers[pi].peer = x;
+                    push("peer-crosswire", format!("entry {i} peer {pi}: peer AS := {}", util::ia_str(x)), m);
+                }
+            }
+            for &v in &ids {
+                let mut m = s.clone();
+                m.entries[i].peers[pi].peer_if = v;
+                push("peer-crosswire", format!("entry {i} peer {pi}: peer interface := {v}"), m);
+                let mut m = s.clone();
+                m.entries[i].peers[pi].cin = v;
+                push("peer-crosswire", format!("entry {i} peer {pi}: hop cons_ingress := {v}"), m);
+                let mut m = s.clone();
+                m.entries[i].peers[pi].cout = v;
+                push("peer-crosswire", format!("entry {i} peer {pi}: hop cons_egress := {v}"), m);
+            }
+            for v in [0u16, 65535] {
+                let mut m = s.clone();
+                m.entries[i].peers[pi].peer_mtu = v;
+                push("mtu", format!("entry {i} peer {pi}: peer_mtu := {v}"), m);
+            }
+            for v in [0u8, 255] {
+                let mut m = s.clone();
+                m.entries[i].peers[pi].exp = v;
+                push("expiry", format!("entry {i} peer {pi}: exp_time := {v}"), m);
+            }
+        }
+        // a peer entry where there was none: towards src / dst
+        for &x in [ctx.src, ctx.dst].iter() {
+            if x != e.ia {
+                let mut m = s.clone();
+                m.entries[i].peers.push(MPeer { peer: x, peer_if: 1, peer_mtu: 1200, exp: 63, cin: 9, cout: e.cout, mac: [0xee; 6] });
+                push("peer-crosswire", format!("entry {i}: invented peer entry towards {}", util::ia_str(x)), m);
+            }
+        }
+    }
+    // synthetic long chains between the original first and last AS
+    if l >= 2 {
+        for n in [63usize, 64, 100] {
+            let mut m = s.clone();
+            let (first, last) = (s.entries[0].clone(), s.entries[l - 1].clone());
+            m.entries = vec![];
+            for k in 0..n {
+                let mut e = if k == 0 {
+                    first.clone()
+                } else if k + 1 == n {
+                    last.clone()
+                } else {
+                    MEntry { ia: (9u64 << 48) | 0xff00_0001_0000 | k as u64, next: 0, mtu: 1500, ingress_mtu: 1500, exp: 63, cin: 0, cout: 0, mac: [k as u8; 6], peers: vec![] }
+                };
+                e.cin = if k == 0 { 0 } else { 1 };
+                e.cout = if k + 1 == n { 0 } else { 2 };
+                m.entries.push(e);
+            }
+            push("long-chain", format!("replace by a synthetic {n}-entry chain between the same end ASes"), m);
+        }
+    }
+    out
+}
+
+/// Every single mutation of a set.
+fn set_mutants(base: &MSet, ctx: &Ctx, foreign: &[MSeg]) -> Vec<Mutant> {
+    let mut out = vec![];
+    for (is_core, list) in [(true, &base.cores), (false, &base.non_cores)] {
+        for (pos, s) in list.iter().enumerate() {
+            let lname = if is_core { "cores" } else { "non_cores" };
+            for (family, what, m) in seg_mutations(s, ctx) {
+                let mut set = base.clone();
+                if is_core {
+                    set.cores[pos] = m;
+                } else {
+                    set.non_cores[pos] = m;
+                }
+                out.push(Mutant { family, what: format!("{lname}[{pos}] (seg#{}): {what}", s.id), set, touched: [s.id].into() });
+            }
+            // the segment in both lists / in the wrong list
+            let mut set = base.clone();
+            let mut copy = s.clone();
+            copy.id = base.next_id();
+            if is_core { set.non_cores.push(copy.clone()) } else { set.cores.push(copy.clone()) };
+            out.push(Mutant { family: "both-lists", what: format!("{lname}[{pos}] (seg#{}) also given in the other list", s.id), set, touched: [copy.id].into() });
+            let mut set = base.clone();
+            if is_core {
+                set.cores.remove(pos);
+                set.non_cores.push(s.clone());
+            } else {
+                set.non_cores.remove(pos);
+                set.cores.push(s.clone());
+            }
+            out.push(Mutant { family: "wrong-list", what: format!("{lname}[{pos}] (seg#{}) moved to the other list", s.id), set, touched: [s.id].into() });
+            let mut set = base.clone();
+            if is_core { set.cores.remove(pos) } else { set.non_cores.remove(pos) };
+            out.push(Mutant { family: "segment-missing", what: format!("{lname}[{pos}] (seg#{}) not delivered", s.id), set, touched: [s.id].into() });
+        }
+    }
+    // foreign-leaf segments (not ending at src or dst), as non-core and as core
+    for f in foreign {
+        for is_core in [false, true] {
+            let mut set = base.clone();
+            let mut c = f.clone();
+            c.id = base.next_id();
+            if is_core { set.cores.push(c.clone()) } else { set.non_cores.push(c.clone()) };
+            out.push(Mutant { family: "foreign-leaf", what: format!("extra segment with a foreign leaf in {}: {}", if is_core { "cores" } else { "non_cores" }, c.text()), set, touched: [c.id].into() });
+        }
+    }
+    out
+}
+
+// ---------------------------------------------------------------------------------------------
+// running the real code + oracles
+// ---------------------------------------------------------------------------------------------
+
+static SLOWEST_NS: AtomicU64 = AtomicU64::new(0);
+/// (start, witness) of the calls in flight, for the watchdog.
+static IN_FLIGHT: Mutex<BTreeMap<u64, (Instant, String)>> = Mutex::new(BTreeMap::new());
+static CALL_NO: AtomicU64 = AtomicU64::new(0);
+
+enum Eval {
+    Paths(Vec<Obs>),
+    Panic(String, String),
+    OverBudget(f64),
+}
+
+fn eval(set: &MSet, src: u64, dst: u64, guard: bool) -> Eval {
+    let cores: Vec<UnsignedPathSegment> = set.cores.iter().map(|s| s.to_crate()).collect();
+    let ncs: Vec<UnsignedPathSegment> = set.non_cores.iter().map(|s| s.to_crate()).collect();
+    let no = CALL_NO.fetch_add(1, Ordering::Relaxed);
+    if guard {
+        IN_FLIGHT.lock().unwrap().insert(no, (Instant::now(), serde_json::to_string(&json!({"set": set.to_json(), "src": src, "dst": dst})).unwrap()));
+    }
+    let t0 = Instant::now();
+    let r = vpc::catch(|| combine(IsdAsn::from_u64(src), IsdAsn::from_u64(dst), cores, ncs));
+    let dt = t0.elapsed();
+    if guard {
+        IN_FLIGHT.lock().unwrap().remove(&no);
+    }
+    SLOWEST_NS.fetch_max(dt.as_nanos() as u64, Ordering::Relaxed);
+    match r {
+        Err(m) => Eval::Panic(vpc::last_panic_location(), m),
+        Ok(_) if dt > BUDGET => Eval::OverBudget(dt.as_secs_f64()),
+        Ok(p) => Eval::Paths(p.iter().map(util::observe).collect()),
+    }
+}
+
+/// Oracle on one returned path, against the input set it was built from.
+fn check_path(o: &Obs, set: &MSet) -> Vec<(String, String)> {
+    let mut v = vec![];
+    if !o.standard || !o.has_meta {
+        v.push(("path-without-standard-dp-path-or-metadata".to_string(), "".to_string()));
+        return v;
+    }
+    let p = match RStdPath::parse(&o.bytes) {
+        Ok(p) => p,
+        Err(e) => {
+            v.push((format!("returned-path-does-not-parse:{e}"), format!("R-wire rejects {}", vpc::hex(&o.bytes))));
+            return v;
+        }
+    };
+    if p.to_bytes() != o.bytes {
+        v.push(("returned-path-re-encodes-differently".into(), format!("{} vs {}", vpc::hex(&p.to_bytes()), vpc::hex(&o.bytes))));
+    }
+    if p.hops.is_empty() || p.hops.len() > 63 || p.curr_hf != 0 || p.curr_inf != 0 {
+        v.push(("returned-path-not-at-its-start-or-oversized".into(), format!("{} hops, curr_hf {}, curr_inf {}", p.hops.len(), p.curr_hf, p.curr_inf)));
+    }
+    // hop-field interface ids vs metadata interface list
+    let ids = util::used_ids(&p);
+    let meta_ids: Vec<u16> = o.ifaces.iter().map(|x| x.1).collect();
+    if ids != meta_ids {
+        let class = if ids.contains(&0) { "metadata-interfaces-differ-from-hop-fields:path-crosses-interface-0" } else { "metadata-interfaces-differ-from-hop-fields" };
+        v.push((class.into(), format!("hop fields cross interface ids {ids:?}, metadata lists {:?}", o.ifaces.iter().map(|(a, i)| format!("{}#{}", util::ia_str(*a), i)).collect::<Vec<_>>())));
+    }
+    // every AS visit = 2 consecutive metadata interfaces of the same AS (except first/last)
+    if o.ifaces.len() % 2 == 0 && ids == meta_ids {
+        for k in (1..o.ifaces.len().saturating_sub(1)).step_by(2) {
+            if o.ifaces[k].0 != o.ifaces[k + 1].0 {
+                v.push(("metadata-interface-list-not-pairwise-per-as".into(), format!("positions {k},{}: {} vs {}", k + 1, util::ia_str(o.ifaces[k].0), util::ia_str(o.ifaces[k + 1].0))));
+                break;
+            }
+        }
+    }
+    match (o.ifaces.first(), o.ifaces.last()) {
+        (Some(f), Some(l)) => {
+            if f.0 != o.src || l.0 != o.dst {
+                v.push(("src-dst-differ-from-metadata-ends".into(), format!("src/dst {} {} metadata ends {} {}", util::ia_str(o.src), util::ia_str(o.dst), util::ia_str(f.0), util::ia_str(l.0))));
+            }
+        }
+        _ => v.push(("metadata-without-interfaces".into(), "".into())),
+    }
+    // expiry
+    let uses = util::hop_uses(&p);
+    let min_exp = uses.iter().map(|u| u.expiry).min().unwrap_or(0);
+    if o.meta_expiration != min_exp as u64 || o.expiration != Some(min_exp) {
+        v.push(("expiry-not-earliest-hop-expiry".into(), format!("metadata {} expiration() {:?} earliest hop {}", o.meta_expiration, o.expiration, min_exp)));
+    }
+    // MTU <= every contributing value. A hop field is attributed to the input entries carrying the
+    // same (mac, ids, exp); if several match, the most permissive one is taken.
+    for (k, h) in p.hops.iter().enumerate() {
+        let mut bound: Option<u32> = None;
+        let mut upd = |b: u32| bound = Some(bound.map_or(b, |x: u32| x.max(b)));
+        let ingress_crossed = {
+            let u = &uses[k];
+            let cons = p.infos[u.seg].cons_dir();
+            if cons { u.in_used } else { u.out_used }
+        };
+        for s in set.cores.iter().chain(set.non_cores.iter()) {
+            for e in &s.entries {
+                if e.mac == h.mac && e.cin == h.cons_ingress && e.cout == h.cons_egress && e.exp == h.exp_time {
+                    let mut b = e.mtu;
+                    if ingress_crossed && e.ingress_mtu != 0 {
+                        b = b.min(e.ingress_mtu as u32);
+                    }
+                    upd(b);
+                }
+                for pe in &e.peers {
+                    if pe.mac == h.mac && pe.cin == h.cons_ingress && pe.cout == h.cons_egress && pe.exp == h.exp_time {
+                        upd(e.mtu.min(pe.peer_mtu as u32));
+                    }
+                }
+            }
+        }
+        match bound {
+            None => v.push(("hop-field-not-from-any-input-entry".into(), format!("hop {k}: {h:?}"))),
+            Some(b) if o.mtu as u32 > b => v.push(("mtu-above-a-contributing-value".into(), format!("path mtu {} but hop {k} ({}>{}) comes from an entry limiting it to {b}", o.mtu, h.cons_ingress, h.cons_egress))),
+            _ => {}
+        }
+    }
+    v
+}
+
+fn iface_set(obs: &[Obs]) -> BTreeSet<Vec<(u64, u16)>> {
+    obs.iter().map(|o| o.ifaces.clone()).collect()
+}
+
+/// Polynomial bound on the result size: every choice of <= 3 segments, a cut index in each of the
+/// two outer ones and a peer entry per cut.
+fn size_bound(set: &MSet) -> u128 {
+    let e = set.len() as u128;
+    let l = set.cores.iter().chain(set.non_cores.iter()).map(|s| s.entries.len()).max().unwrap_or(0) as u128;
+    let p = set.cores.iter().chain(set.non_cores.iter()).flat_map(|s| s.entries.iter().map(|e| e.peers.len())).max().unwrap_or(0) as u128 + 1;
+    let cut = (l * p).max(1);
+    e * cut + e * e * cut * cut + e * e * e * cut * cut
+}
+
+struct CaseResult {
+    violations: Vec<(String, String)>,
+    paths: Option<Vec<Obs>>,
+}
+
+/// Evaluate one (possibly mutated) set: all oracles except isolation.
+fn run_set(set: &MSet, src: u64, dst: u64) -> CaseResult {
+    match eval(set, src, dst, true) {
+        Eval::Panic(loc, msg) => CaseResult { violations: vec![(format!("panic@{}", loc.rsplit('/').next().unwrap_or(&loc)), format!("combine panicked at {loc}: {msg}"))], paths: None },
+        Eval::OverBudget(s) => CaseResult { violations: vec![("no-return-within-budget".into(), format!("combine took {s:.1} s on {} segments", set.len()))], paths: None },
+        Eval::Paths(obs) => {
+            let mut v = vec![];
+            if obs.len() as u128 > size_bound(set) {
+                v.push(("result-larger-than-polynomial-bound".into(), format!("{} paths from {} segments", obs.len(), set.len())));
+            }
+            let mut seen = BTreeSet::new();
+            for o in &obs {
+                for (c, w) in check_path(o, set) {
+                    if seen.insert(c.clone()) {
+                        v.push((c, format!("{w}  [path {}]", o.to_json())));
+                    }
+                }
+            }
+            CaseResult { violations: v, paths: Some(obs) }
+        }
+    }
+}
+
+fn witness(topo_name: &str, src: u64, dst: u64, what: &str, set: &MSet, touched: &BTreeSet<u32>) -> Value {
+    json!({
+        "topology": topo_name, "src": src, "dst": dst, "src_text": util::ia_str(src), "dst_text": util::ia_str(dst),
+        "mutation": what, "touched_segment_ids": touched.iter().collect::<Vec<_>>(), "set": set.to_json(),
+        "set_text": {"cores": set.cores.iter().map(|s| s.text()).collect::<Vec<_>>(), "non_cores": set.non_cores.iter().map(|s| s.text()).collect::<Vec<_>>()},
+    })
+}
+
+#[derive(Default)]
+struct Tally {
+    calls: u64,
+    bases: u64,
+    mutants: u64,
+    changed: Vec<u64>,
+    outcomes: BTreeMap<String, u64>,
+    max_paths: usize,
+}
+impl Tally {
+    fn merge(&mut self, o: Tally) {
+        self.calls += o.calls;
+        self.bases += o.bases;
+        self.mutants += o.mutants;
+        self.changed.extend(o.changed);
+        for (k, v) in o.outcomes {
+            *self.outcomes.entry(k).or_default() += v;
+        }
+        self.max_paths = self.max_paths.max(o.max_paths);
+    }
+    fn out(&mut self, k: String) {
+        *self.outcomes.entry(k).or_default() += 1;
+    }
+}
+
+/// All oracles on one mutant. `rest_cache`: result of the set without the touched segments.
+fn judge(run: &vpc::Run, t: &mut Tally, topo_name: &str, src: u64, dst: u64, base_ifaces: &BTreeSet<Vec<(u64, u16)>>, m: &Mutant, rest_cache: &mut BTreeMap<BTreeSet<u32>, Option<BTreeSet<Vec<(u64, u16)>>>>) -> Option<Vec<Obs>> {
+    t.mutants += 1;
+    t.calls += 1;
+    let r = run_set(&m.set, src, dst);
+    let mut viol = r.violations;
+    if let Some(obs) = &r.paths {
+        t.max_paths = t.max_paths.max(obs.len());
+        let got = iface_set(obs);
+        // isolation
+        let rest = rest_cache.entry(m.touched.clone()).or_insert_with(|| {
+            t.calls += 1;
+            match eval(&m.set.without(&m.touched), src, dst, true) {
+                Eval::Paths(p) => Some(iface_set(&p)),
+                _ => None,
+            }
+        });
+        if let Some(rest) = rest {
+            let lost: Vec<_> = rest.difference(&got).cloned().collect();
+            if !lost.is_empty() {
+                viol.push((format!("isolation:{}:path-of-untouched-segments-lost", m.family), format!("{} path(s) obtainable from the untouched segments alone disappear, e.g. {:?}", lost.len(), lost[0].iter().map(|(a, i)| format!("{}#{}", util::ia_str(*a), i)).collect::<Vec<_>>())));
+            }
+        }
+        let effect = if got == *base_ifaces {
+            "result-unchanged"
+        } else if got.is_empty() {
+            "all-paths-gone"
+        } else if got.is_subset(base_ifaces) {
+            "paths-lost"
+        } else if got.is_superset(base_ifaces) {
+            "paths-gained"
+        } else {
+            "paths-lost-and-gained"
+        };
+        t.out(format!("effect:{effect}"));
+        if got != *base_ifaces {
+            t.changed.push(m.set.hash() ^ vpc::fnv64(format!("{topo_name}|{src}|{dst}").as_bytes()));
+            t.out(format!("family-changing-result:{}", m.family));
+        }
+    } else {
+        t.out("effect:panic-or-over-budget".into());
+    }
+    t.out(format!("family:{}", m.family));
+    for (class, what) in viol {
+        run.violation(&class, &format!("{topo_name} {}->{} after [{}]: {what}", util::ia_str(src), util::ia_str(dst), m.what), witness(topo_name, src, dst, &m.what, &m.set, &m.touched));
+    }
+    r.paths
+}
+
+fn base_set(topo: &Topo, segs: &refseg::RSegs, src: AsIdx, dst: AsIdx) -> MSet {
+    let ps = segs.plan_sets(topo, src, dst);
+    let mut id = 0u32;
+    let mut mk = |s: &RSegment| {
+        id += 1;
+        MSeg::from_r(topo, id - 1, s)
+    };
+    let mut core_idx: Vec<usize> = ps.core.clone();
+    for i in &ps.core_rev {
+        if !core_idx.contains(i) {
+            core_idx.push(*i);
+        }
+    }
+    // production returns one beaconing direction per core pair unless both ends are wildcards of
+    // the same ISD; the base keeps the lookup direction only (plan_sets().core)
+    let _ = core_idx;
+    MSet { cores: ps.core.iter().map(|&i| mk(&segs.core[i])).collect(), non_cores: ps.up.iter().chain(ps.down.iter()).map(|&i| mk(&segs.up_down[i])).collect() }
+}
+
+/// Explore one topology: every ordered pair, every single mutant; `pairs`: also every mutant of every mutant.
+fn explore(run: &vpc::Run, topo: &Topo, pairs: bool) -> Tally {
+    let mut t = Tally::default();
+    let segs = refseg::beacon(topo, BASE_TS);
+    let n = topo.ases.len();
+    let mut ias: Vec<u64> = topo.ases.iter().map(|a| a.ia()).collect();
+    ias.push((7u64 << 48) | 0xff00_0000_0777);
+    for src in 0..n {
+        for dst in 0..n {
+            if src == dst {
+                continue;
+            }
+            let base = base_set(topo, &segs, src, dst);
+            if base.len() == 0 {
+                continue;
+            }
+            let (s_ia, d_ia) = (topo.ases[src].ia(), topo.ases[dst].ia());
+            let ctx = Ctx { ias: ias.clone(), src: s_ia, dst: d_ia };
+            // foreign-leaf segments: up to 3 segments of the topology ending elsewhere
+            let foreign: Vec<MSeg> = segs.up_down.iter().filter(|s| s.last_as() != src && s.last_as() != dst).take(3).map(|s| MSeg::from_r(topo, 0, s)).collect();
+            t.bases += 1;
+            t.calls += 1;
+            let b = run_set(&base, s_ia, d_ia);
+            for (class, what) in &b.violations {
+                run.violation(class, &format!("{} {}->{} unmutated: {what}", topo.name, util::ia_str(s_ia), util::ia_str(d_ia)), witness(&topo.name, s_ia, d_ia, "none", &base, &BTreeSet::new()));
+            }
+            let Some(bobs) = b.paths else { continue };
+            let base_ifaces = iface_set(&bobs);
+            let mut rest_cache = BTreeMap::new();
+            let singles = set_mutants(&base, &ctx, &foreign);
+            for m in &singles {
+                let r = judge(run, &mut t, &topo.name, s_ia, d_ia, &base_ifaces, m, &mut rest_cache);
+                run.sample(3, || json!({"topology": topo.name, "src": util::ia_str(s_ia), "dst": util::ia_str(d_ia), "mutation": m.what, "set": {"cores": m.set.cores.iter().map(|s| s.text()).collect::<Vec<_>>(), "non_cores": m.set.non_cores.iter().map(|s| s.text()).collect::<Vec<_>>()}, "returned": r.as_ref().map(|o| o.iter().map(|x| x.to_json()).collect::<Vec<_>>())}));
+                if pairs {
+                    let mut rest2 = BTreeMap::new();
+                    for m2 in set_mutants(&m.set, &ctx, &[]) {
+                        let both = Mutant { family: m2.family, what: format!("{} ; then {}", m.what, m2.what), set: m2.set, touched: m.touched.union(&m2.touched).copied().collect() };
+                        judge(run, &mut t, &topo.name, s_ia, d_ia, &base_ifaces, &both, &mut rest2);
+                    }
+                }
+            }
+        }
+    }
+    t
+}
+
+/// Scaling series: a base set grown to 5/10/20/40 segments by replication with fresh timestamps
+/// (`distinct_ids`: the replicas also get fresh interface ids at the leaf, so nothing de-duplicates).
+fn scaling(run: &vpc::Run, topo: &Topo, t: &mut Tally, series: &mut Vec<Value>) {
+    let segs = refseg::beacon(topo, BASE_TS);
+    let n = topo.ases.len();
+    for src in 0..n {
+        for dst in 0..n {
+            if src == dst || topo.ases[src].core || topo.ases[dst].core {
+                continue;
+            }
+            let base = base_set(topo, &segs, src, dst);
+            if base.cores.is_empty() || base.non_cores.len() < 2 {
+                continue;
+            }
+            let (s_ia, d_ia) = (topo.ases[src].ia(), topo.ases[dst].ia());
+            for distinct_ids in [false, true] {
+                let mut row = vec![];
+                for size in [5usize, 10, 20, 40] {
+                    let mut set = base.clone();
+                    let all: Vec<(bool, MSeg)> = base.cores.iter().map(|s| (true, s.clone())).chain(base.non_cores.iter().map(|s| (false, s.clone()))).collect();
+                    // trim or grow to `size`, round-robin over the base segments
+                    set.cores.clear();
+                    set.non_cores.clear();
+                    for k in 0..size {
+                        let (is_core, mut s) = all[k % all.len()].clone();
+                        let round = (k / all.len()) as u32;
+                        s.id = k as u32;
+                        s.ts += 100 * round;
+                        if distinct_ids && round > 0 {
+                            // fresh ids on the link into the last AS: a parallel link
+                            let l = s.entries.len();
+                            if l >= 2 {
+                                s.entries[l - 2].cout = s.entries[l - 2].cout.wrapping_add(1000 * round as u16);
+                                s.entries[l - 1].cin = s.entries[l - 1].cin.wrapping_add(1000 * round as u16);
+                            }
+                        }
+                        if is_core { set.cores.push(s) } else { set.non_cores.push(s) };
+                    }
+                    t.calls += 1;
+                    let t0 = Instant::now();
+                    let r = run_set(&set, s_ia, d_ia);
+                    let ms = t0.elapsed().as_secs_f64() * 1000.0;
+                    for (class, what) in &r.violations {
+                        run.violation(class, &format!("{} {}->{} scaled to {size} segments (distinct ids: {distinct_ids}): {what}", topo.name, util::ia_str(s_ia), util::ia_str(d_ia)), witness(&topo.name, s_ia, d_ia, &format!("scaled to {size}"), &set, &BTreeSet::new()));
+                    }
+                    let np = r.paths.as_ref().map_or(0, |p| p.len());
+                    t.max_paths = t.max_paths.max(np);
+                    t.out(format!("scaling:size-{size}"));
+                    row.push(json!({"segments": size, "paths": np, "bound": size_bound(&set).to_string(), "ms_informational": (ms * 10.0).round() / 10.0}));
+                }
+                if series.len() < 6 {
+                    series.push(json!({"topology": topo.name, "src": util::ia_str(s_ia), "dst": util::ia_str(d_ia), "replicas_with_distinct_interface_ids": distinct_ids, "series": row}));
+                }
+            }
+            return; // one pair per topology is enough for the series
+        }
+    }
+}
+
+fn replay(file: &std::path::Path) -> ! {
+    let rp = vpc::read_replay(file);
+    let w = &rp["witness"];
+    let set = MSet::from_json(&w["set"]);
+    let (src, dst) = (w["src"].as_u64().unwrap(), w["dst"].as_u64().unwrap());
+    let touched: BTreeSet<u32> = w["touched_segment_ids"].as_array().map(|a| a.iter().map(|x| x.as_u64().unwrap() as u32).collect()).unwrap_or_default();
+    println!("replay {}: {} -> {} after [{}]", file.display(), util::ia_str(src), util::ia_str(dst), w["mutation"].as_str().unwrap_or(""));
+    for s in &set.cores {
+        println!("  core     {}", s.text());
+    }
+    for s in &set.non_cores {
+        println!("  non-core {}", s.text());
+    }
+    let r = run_set(&set, src, dst);
+    let mut bad = r.violations.clone();
+    if let Some(obs) = &r.paths {
+        println!("combine returned {} paths", obs.len());
+        for o in obs {
+            println!("  {}", o.to_json());
+        }
+        if let Eval::Paths(rest) = eval(&set.without(&touched), src, dst, false) {
+            println!("without the touched segments {touched:?}: {} paths", rest.len());
+            let lost: Vec<_> = iface_set(&rest).difference(&iface_set(obs)).cloned().collect();
+            for l in &lost {
+                bad.push(("isolation:path-of-untouched-segments-lost".into(), format!("{:?}", l.iter().map(|(a, i)| format!("{}#{}", util::ia_str(*a), i)).collect::<Vec<_>>())));
+            }
+        }
+    }
+    if bad.is_empty() {
+        println!("REPLAY: no violation reproduced");
+        std::process::exit(0)
+    }
+    for (c, wh) in bad {
+        println!("REPLAY VIOLATION [{c}] {wh}");
+    }
+    std::process::exit(1)
+}
+
 pub fn run(args: &vpc::Args) -> ! {
-    vpc::machinery_failure(&format!("property {} not implemented yet", args.prop))
+    vpc::quiet_panics();
+    if let Some(f) = &args.replay {
+        replay(f);
+    }
+    let run = vpc::Run::new(args);
+    // watchdog: a call that does not return within twice the budget ends the run with a violation
+    std::thread::spawn(|| {
+        loop {
+            std::thread::sleep(Duration::from_millis(500));
+            let g = IN_FLIGHT.lock().unwrap();
+            for (_, (t0, w)) in g.iter() {
+                if t0.elapsed() > BUDGET * 2 {
+                    let dir = vpc::verif_root().join("replays").join("C19");
+                    let _ = std::fs::create_dir_all(&dir);
+                    let f = dir.join("no-return-within-budget-hang.json");
+                    let _ = std::fs::write(&f, format!("{{\"property\":\"C19\",\"class\":\"no-return-within-budget\",\"what\":\"combine did not return within {} s\",\"witness\":{w}}}", BUDGET.as_secs() * 2));
+                    println!("VIOLATION property=C19 replay={}   [no-return-within-budget] combine did not return", f.display());
+                    std::process::exit(1);
+                }
+            }
+        }
+    });
+    let max_n = run.tier.pick(3, 4);
+    let pairs_max_n = run.tier.pick(0, 2);
+    let mut total = Tally::default();
+    let mut per = vec![];
+    for n in 1..=max_n {
+        let topos = reftopo_enum::enumerate(n, 2);
+        let pairs = n <= pairs_max_n;
+        let tallies: Vec<Tally> = topos.par_iter().map(|t| explore(&run, t, pairs)).collect();
+        let mut tn = Tally::default();
+        for t in tallies {
+            tn.merge(t);
+        }
+        per.push(json!({"n": n, "topologies": topos.len(), "base_sets": tn.bases, "mutated_sets": tn.mutants, "pairs_of_mutations": pairs, "combine_calls": tn.calls}));
+        total.merge(tn);
+    }
+    let cur = reftopo_enum::curated();
+    let tallies: Vec<Tally> = cur.par_iter().map(|t| explore(&run, t, false)).collect();
+    let mut tn = Tally::default();
+    for t in tallies {
+        tn.merge(t);
+    }
+    per.push(json!({"curated": cur.len(), "base_sets": tn.bases, "mutated_sets": tn.mutants, "pairs_of_mutations": false, "combine_calls": tn.calls}));
+    total.merge(tn);
+    // scaling series on the curated shapes and the n = 4 shapes with two non-cores
+    let mut series = vec![];
+    let mut ts = Tally::default();
+    for t in cur.iter().chain(reftopo_enum::enumerate(4, 2).iter().step_by(97)) {
+        scaling(&run, t, &mut ts, &mut series);
+    }
+    total.merge(ts);
+    for (k, v) in &total.outcomes {
+        run.outcome_n(k, *v);
+    }
+    let d = vpc::Distinct::default();
+    d.extend(total.changed.iter().copied());
+    let slow_ms = SLOWEST_NS.load(Ordering::Relaxed) as f64 / 1e6;
+    run.finish(
+        "fault_enumeration",
+        json!({
+            "evaluations": total.calls,
+            "distinct_nontrivial": d.len(),
+            "rule": "distinct (topology, pair, mutated segment set) whose returned interface-sequence set differs from the unmutated set's; evaluations = calls of the real combine()",
+            "exhaustive": true,
+            "bound": format!("every single structural mutation (catalogue: truncate 0/1, reverse, delete/duplicate/swap entries, repeat an AS, foreign AS, every interface id := 0 / another id of the segment / 65535, both 0, swapped, all ids 0, AS MTU in {{0,1,65535,65536,67036,u32::MAX}}, ingress_mtu/peer_mtu 0/1/65535, ExpTime 0/255, peer entry dropped/duplicated/re-targeted/re-wired/invented, 63/64/100-entry chains, segment in both lists / wrong list / missing, foreign-leaf segments) of every lookup-plan set of every (topology, ordered pair) with n <= {max_n} ASes + {} curated shapes; every ordered PAIR of mutations for n <= {pairs_max_n}; scaling series 5/10/20/40 segments", cur.len()),
+            "per_n": per,
+            "largest_result_paths": total.max_paths,
+            "fixed_budget_s": BUDGET.as_secs(),
+            "slowest_call_ms_informational": (slow_ms * 10.0).round() / 10.0,
+            "scaling_series": series,
+        }),
+        &[
+            "combine contains no unsafe code, recursion or unbounded allocation, so a process abort is not expected; it would surface as MACHINERY-FAILURE (exit 2), never as a pass; a hang ends the run through the watchdog with a violation",
+            "isolation compares metadata interface lists: combine(S) must contain every interface sequence of combine(S without the touched segments)",
+            "the time budget is a fixed 20 s per call (unmutated calls take < 1 ms); it is a budget, not a measurement; the timing figures in the evidence are informational",
+        ],
+    )
 }
